@@ -81,6 +81,26 @@ Definition cmd_ops (cur newid : N) (verify_ok : bool) (c : cmd) : list kop :=
   | CRemove t => if N.eqb t cur then [] else [KRemove t]
   end.
 
+(* switchToNewKeyAndRemoveIfBroken looked at more closely: the verification is
+   SearchKey(newpw, no limit, hint = new key) on the listing after the Save.  If the new key file
+   cannot be read (k_good = false in [listing]) the search goes on through the listing and may
+   succeed with ANOTHER key that has the same password; the session then uses that key, and
+   RemoveKey's guard compares with it. *)
+Definition cmd_ops_listing (listing : list key) (cur newid : N) (c : cmd) : list kop :=
+  match c with
+  | CAdd pw =>
+      match search_key listing pw 0 true [newid] with
+      | SFound _ _ => [KSave newid pw]
+      | _ => [KSave newid pw; KRemove newid]
+      end
+  | CPasswd pw =>
+      match search_key listing pw 0 true [newid] with
+      | SFound found _ => if N.eqb found cur then [KSave newid pw] else [KSave newid pw; KRemove cur]
+      | _ => [KSave newid pw; KRemove newid]
+      end
+  | CRemove t => if N.eqb t cur then [] else [KRemove t]
+  end.
+
 Definition kstate := list key.
 Definition kapply (master : N) (s : kstate) (o : kop) : kstate :=
   match o with
@@ -167,7 +187,25 @@ Fixpoint is_prefix_of (p l : list kop) : bool :=
   | _ :: _, [] => false
   end.
 
+(* unreadable new key, password shared with an existing key: which branch is taken depends on the
+   listing order (is the unreadable file listed before a key with the password) *)
+Definition shared_pw_traces (c : hcase) : list (list kop) :=
+  let n := h_newid c in let cur := h_cur c in
+  match h_cmd c with
+  | CAdd pw => [[KSave n pw]; [KSave n pw; KRemove n]]
+  | CPasswd pw =>
+      [[KSave n pw; KRemove n]] ++
+      (if existsb (fun k => N.eqb (k_id k) cur && N.eqb (k_pw k) pw && k_good k) (h_before c) then [[KSave n pw]] else []) ++
+      (if existsb (fun k => negb (N.eqb (k_id k) cur) && N.eqb (k_pw k) pw && k_good k) (h_before c)
+       then [[KSave n pw; KRemove cur]] else [])
+  | CRemove _ => [cmd_ops cur n true (h_cmd c)]
+  end.
+Definition cmd_newpw (c : cmd) : option N := match c with CAdd pw | CPasswd pw => Some pw | CRemove _ => None end.
+
 Definition h_model_agrees (c : hcase) : bool :=
+  if negb (h_vok c) && negb (h_cut c) &&
+     match cmd_newpw (h_cmd c) with Some pw => pw_present (h_before c) pw | None => false end
+  then existsb (fun t => list_eqb kop_eqb (h_trace c) t) (shared_pw_traces c) else
   let nominal := cmd_ops (h_cur c) (h_newid c) (h_vok c) (h_cmd c) in
   if h_cut c then is_prefix_of (h_trace c) nominal
   else list_eqb kop_eqb (h_trace c) nominal.
